@@ -97,7 +97,7 @@ RECONF_KEYS = [None, 'original', 'alphanumeric', 'canonical', 'random']
 
 
 def plan_world(rng, idx):
-    specs = [gmodels.DEFAULT, gmodels.AMR, gmodels.NOOP, gmodels.custom(idx)]
+    specs = [gmodels.DEFAULT, gmodels.AMR, gmodels.NOOP, gmodels.custom_any(idx)]
     items = []
     n = 3 + rng.randrange(4)
     for i in range(n):
@@ -511,7 +511,9 @@ def _execute(trace, cfg, clients, res):
     for ci, ops in enumerate(clients):
         local = {'iters': []}
         for op in ops:
-            reference[op['id']] = result_canon(lambda: run_op(ref_world, op, local))
+            # the reference never sends its arguments through pickle: a copy of an argument that crossed a
+            # process / pickle boundary must give the same result as the argument itself
+            reference[op['id']] = result_canon(lambda: run_op(ref_world, dict(op, pickle=False), local))
     ref_after = ref_world.digests()
 
     world = World(trace['world'])
